@@ -212,3 +212,10 @@ Definition s_entries (s : spec) : list (key * phrase) :=
 (* the live phrases of one key *)
 Definition s_lookup (k : key) (s : spec) : list phrase :=
   map snd (filter (fun e => seq_eqb (fst e) k) (s_entries s)).
+
+(* abstraction of a trie: the value it holds for (syllables, phrase) *)
+Definition trie_get (t : trie) (x : pkey) : option sval :=
+  match find (fun ph => seq_eqb (ph_text ph) (snd x)) (trie_leaf t (fst x)) with
+  | Some ph => Some (ph_freq ph, ph_time ph)
+  | None => None
+  end.
